@@ -17,11 +17,46 @@ mod stmsetup;
 use blake2::digest::{consts::U64, Digest};
 use blake2::Blake2b;
 use hutil::{catch, Args, Rng, Sink};
-use mithril_stm::verif_hooks::{verify_batch, RawLeaf};
+use mithril_stm::verif_hooks::{bls_aggregate, verify_batch, RawLeaf};
 use mithril_stm::{AggregateSignature, Parameters, SingleSignature, VerificationKeyForConcatenation};
 use serde_json::{json, Value};
 use std::collections::BTreeMap;
 use stmsetup::*;
+
+// ---- G1 arithmetic on compressed points (blst FFI), used for the coefficient-cancellation attack
+fn p1_from(b: &[u8]) -> blst::blst_p1 {
+    let mut a = blst::blst_p1_affine::default();
+    let mut p = blst::blst_p1::default();
+    unsafe { blst::blst_p1_uncompress(&mut a, b.as_ptr()); blst::blst_p1_from_affine(&mut p, &a); }
+    p
+}
+fn p1_to(p: &blst::blst_p1) -> Vec<u8> {
+    let mut out = [0u8; 48];
+    unsafe { blst::blst_p1_compress(out.as_mut_ptr(), p) };
+    out.to_vec()
+}
+fn p1_add(a: &blst::blst_p1, b: &blst::blst_p1) -> blst::blst_p1 {
+    let mut r = blst::blst_p1::default();
+    unsafe { blst::blst_p1_add_or_double(&mut r, a, b) };
+    r
+}
+fn p1_neg(a: &blst::blst_p1) -> blst::blst_p1 {
+    let mut r = *a;
+    unsafe { blst::blst_p1_cneg(&mut r, true) };
+    r
+}
+fn p1_mul128(a: &blst::blst_p1, scalar_le: &[u8]) -> blst::blst_p1 {
+    let mut r = blst::blst_p1::default();
+    unsafe { blst::blst_p1_mult(&mut r, a, scalar_le.as_ptr(), 128) };
+    r
+}
+/// the specification of the coefficients of `BlsSignature::aggregate`: e_i = Blake2b-128(sig_1 ‖ … ‖ sig_n ‖ be64(i))
+fn spec_coefficients(sigs: &[Vec<u8>]) -> Vec<Vec<u8>> {
+    use blake2::digest::consts::U16;
+    let mut h = Blake2b::<U16>::new();
+    for s in sigs { h.update(s); }
+    (0..sigs.len()).map(|i| { let mut hi = h.clone(); hi.update((i as u64).to_be_bytes()); hi.finalize().to_vec() }).collect()
+}
 
 fn bytes_of(v: &Value) -> Vec<u8> {
     v.as_array().map(|a| a.iter().map(|x| x.as_u64().unwrap_or(0) as u8).collect()).unwrap_or_default()
@@ -265,6 +300,73 @@ fn main() {
         mutate("path-index-duplicated", &mut |v| { let l = v["batch_proof"]["indices"].as_array_mut().unwrap(); let x = l[0].clone(); l.insert(0, x); }, &mut cases);
         mutate("path-index-huge", &mut |v| { let l = v["batch_proof"]["indices"].as_array_mut().unwrap(); let n = l.len(); l[n - 1] = json!(u64::MAX); }, &mut cases);
         mutate("signature-removed", &mut |v| { v["signatures"].as_array_mut().unwrap().remove(a); }, &mut cases);
+        // ---- the aggregate check's coefficients ---------------------------------------------------
+        if ns >= 2 {
+            let sig_bytes: Vec<Vec<u8>> = honest_v["signatures"].as_array().unwrap().iter().map(|s| bytes_of(&s[0]["sigma"])).collect();
+            let vk_bytes: Vec<Vec<u8>> = honest_v["signatures"].as_array().unwrap().iter().map(|s| bytes_of(&s[1][0])).collect();
+            // (i) K: the coefficient formula (Lean: Blake2b-128 in the driver) and the aggregated signature the code computes
+            let coeffs = spec_coefficients(&sig_bytes);
+            if sink.wanted() {
+                sink.case("coefficients", &format!("c01.coeff sigs=[{}]", sig_bytes.iter().map(|b| hutil::hex(b)).collect::<Vec<_>>().join(",")), &format!("[{}]", coeffs.iter().map(|c| hutil::hex(c)).collect::<Vec<_>>().join(",")));
+            } else { sink.skip(); }
+            if sink.wanted() {
+                let mut acc: Option<blst::blst_p1> = None;
+                for (sg, e) in sig_bytes.iter().zip(coeffs.iter()) { let t = p1_mul128(&p1_from(sg), e); acc = Some(match acc { None => t, Some(a) => p1_add(&a, &t) }); }
+                let expected = p1_to(&acc.unwrap());
+                let got = bls_aggregate(&vk_bytes, &sig_bytes).map(|(_, s)| s);
+                let out = if got.as_ref() == Some(&expected) { "match" } else { "mismatch" };
+                let i = sink.case("aggregate-point", "c01.aggpoint", out);
+                let _ = i; // K only: the property does not prescribe this formula, only that the check is sound
+            } else { sink.skip(); }
+            // (ii) the cancellation attack that succeeds whenever the coefficients do NOT depend on the signatures:
+            // with the aggregation as an oracle O, O(.., s_A + D, ..) - O(..) = e_A*D; then s_A' = s_A + e_B*D,
+            // s_B' = s_B - e_A*D leaves e_A*s_A + e_B*s_B unchanged although neither signature is valid.
+            let o = |sigs: &[Vec<u8>]| bls_aggregate(&vk_bytes, sigs).map(|(_, s)| p1_from(&s));
+            // the forged signatures must still win lotteries: keep, for each, exactly the indices its NEW sigma wins
+            // (distinct from everybody else's), lower k to what is covered, and grind the offset D a little.
+            let reindex = |ctx: &Ctx, new_a: &[u8], new_b: &[u8]| -> Option<(Value, Parameters)> {
+                let mut v = honest_v.clone();
+                let mut used: std::collections::BTreeSet<u64> = v["signatures"].as_array().unwrap().iter().enumerate()
+                    .filter(|(i, _)| *i != a && *i != b)
+                    .flat_map(|(_, s)| s[0]["indexes"].as_array().unwrap().iter().map(|x| x.as_u64().unwrap()).collect::<Vec<_>>()).collect();
+                for (slot, sg) in [(a, new_a), (b, new_b)] {
+                    let st = v["signatures"][slot][1][1].as_u64().unwrap();
+                    let idx: Vec<u64> = (0..m).filter(|i| !used.contains(i) && ctx.won(&params, sg, *i, st)).collect();
+                    if idx.is_empty() { return None; }
+                    used.extend(idx.iter().cloned());
+                    v["signatures"][slot][0]["sigma"] = json!(sg);
+                    v["signatures"][slot][0]["indexes"] = json!(idx);
+                }
+                let mut p2 = params; p2.k = used.len() as u64;
+                Some((v, p2))
+            };
+            if let Some(base) = o(&sig_bytes) {
+                let (mut got_coeff, mut got_plain) = (false, false);
+                let step = p1_from(&sig_bytes[b]);
+                let mut d = step;
+                for _try in 0..24 {
+                    if got_coeff && got_plain { break; }
+                    let mut sa = sig_bytes.clone(); sa[a] = p1_to(&p1_add(&p1_from(&sig_bytes[a]), &d));
+                    let mut sb = sig_bytes.clone(); sb[b] = p1_to(&p1_add(&p1_from(&sig_bytes[b]), &d));
+                    if let (false, Some(oa), Some(ob)) = (got_coeff, o(&sa), o(&sb)) {
+                        let ea_d = p1_add(&oa, &p1_neg(&base));
+                        let eb_d = p1_add(&ob, &p1_neg(&base));
+                        let new_a = p1_to(&p1_add(&p1_from(&sig_bytes[a]), &eb_d));
+                        let new_b = p1_to(&p1_add(&p1_from(&sig_bytes[b]), &p1_neg(&ea_d)));
+                        if let Some((v, p2)) = reindex(&ctx, &new_a, &new_b) { cases.push(("coefficient-cancellation", v, p2)); got_coeff = true; }
+                    }
+                    if !got_plain {
+                        // constant-coefficient variant (e_i = 1): s_A + D, s_B - D
+                        let ca = p1_to(&p1_add(&p1_from(&sig_bytes[a]), &d));
+                        let cb = p1_to(&p1_add(&p1_from(&sig_bytes[b]), &p1_neg(&d)));
+                        if ca.iter().any(|x| *x != 0) && cb[0] != 0xc0 {
+                            if let Some((v, p2)) = reindex(&ctx, &ca, &cb) { cases.push(("plain-sum-cancellation", v, p2)); got_plain = true; }
+                        }
+                    }
+                    d = p1_add(&d, &step); d = p1_add(&d, &p1_from(&sig_bytes[a]));
+                }
+            }
+        }
         // other parameters: larger k, smaller m than signed for
         { let mut p2 = params; p2.k = cover.len() as u64 + 1; cases.push(("params-k-above", honest_v.clone(), p2)); }
         { let mut p2 = params; p2.m = 1; cases.push(("params-m-small", honest_v.clone(), p2)); }
@@ -273,7 +375,7 @@ fn main() {
         for (tag, v, p) in cases {
             if !sink.wanted() { sink.skip(); continue; }
             let out = real_verify(&f, &p, &v, &msg);
-            if out == "undecodable" { sink.case("undecodable", "c01.verify member=(1,1,[],1,0)", "err aggInvalid"); continue; }
+            if out == "undecodable" { sink.case("undecodable", "c01.note", "err"); continue; }
             let (mem, facts) = match ctx.member(&p, &v) { Some(x) => x, None => { continue; } };
             let req = format!("c01.verify member={}", mem);
             let i = sink.case(tag, &req, &out);
